@@ -7,6 +7,7 @@ import (
 	"path/filepath"
 	"sort"
 	"strconv"
+	"strings"
 	"testing"
 	"time"
 )
@@ -75,6 +76,21 @@ type WorkerSummary struct {
 	Known       []Violation      `json:"known"`
 	HarnessErr  string           `json:"harness_error,omitempty"`
 	Seeds       []uint64         `json:"first_seeds"`
+}
+
+// KnownKey reports whether (prop, key) is listed as an OPEN known finding (the driver passes the list in
+// VERIF_KNOWN_KEYS as "C07/key1,C15/key2"). Engines use it to record such a violation in
+// RunResult.Known and carry on exploring instead of stopping at it; anything not listed is a VIOLATION.
+func KnownKey(prop, key string) bool {
+	if key == "" {
+		return false
+	}
+	for _, k := range strings.Split(os.Getenv("VERIF_KNOWN_KEYS"), ",") {
+		if k == prop+"/"+key {
+			return true
+		}
+	}
+	return false
 }
 
 func envInt(name string, def int) int {
